@@ -119,4 +119,9 @@ theorem loop_range_idx2 {ρ σ : Type} (s t : Bytes) (hl : s.length = t.length) 
 theorem len_eq_iff {α : Type} (a b : List α) : len a = len b ↔ a.length = b.length := by
   unfold len; exact Int.ofNat_inj
 
+/-- a Boolean statement about every byte, by enumeration of the 256 values (kernel `decide`) -/
+theorem byte_forall (P : UInt8 → Bool) (h : ∀ n : Fin 256, P (UInt8.ofNat n.val) = true) (c : UInt8) : P c = true := by
+  have := h ⟨c.toNat, UInt8.toNat_lt c⟩
+  simpa using this
+
 end GB.Trans
